@@ -874,39 +874,4 @@ Proof.
          (dx * t0 tr + dy * t1 tr, dx * t3 tr + dy * t4 tr).
   assert (Hn : (length (section_ctrl s) - 1 < length (map fst (section_ctrl s)))%nat /\
                (length (section_ctrl s) - 1 < length (map snd (section_ctrl s)))%nat).
-  { rewrite !map_length. clear - Hok. destruct s as [| | |ctrl]; simpl in Hok |- *; lia. }
-  destruct Hn as [Hn1 Hn2].
-  split; [|split].
-  - rewrite (E01 Hu). unfold sub_eval01. rewrite Ex, Ey. reflexivity.
-  - unfold sub_gradient. rewrite (Cu Hu), Edx, Edy. reflexivity.
-  - unfold PX, PY, section_poly. cbn [fst snd].
-    repeat split.
-    + rewrite !peval_padd, !peval_pscale, !peval_pbez, Hx, Hy. simpl. ring.
-    + rewrite !peval_padd, !peval_pscale, !peval_pbez, Hx, Hy. simpl. ring.
-    + rewrite !pd_padd, !pd_pscale, pd_const, !pd_pbez by assumption. rewrite Hdx, Hdy. ring.
-    + rewrite !pd_padd, !pd_pscale, pd_const, !pd_pbez by assumption. rewrite Hdx, Hdy. ring.
-Qed.
-
-Example gradient_example :
-  let s := SBezier [(0, 0); (1, 2); (3, 3); (4, 0); (6, 1)] in
-  section_ok s /\
-  match sub_gradient s (1 # 2) trafo_id with
-  | Ok g => Qeq_bool (fst g) (peval (pderiv (section_poly s 1 0 0)) (1 # 2)) &&
-            Qeq_bool (snd g) (peval (pderiv (section_poly s 0 1 0)) (1 # 2))
-  | _ => false
-  end = true.
-Proof. split; [simpl; lia|vm_compute; reflexivity]. Qed.
-
-Print Assumptions flexpath_counts_invariant_lemma.
-Print Assumptions flexpath_counts_every_fill_needed_lemma.
-Print Assumptions fill_linear_lemma.
-Print Assumptions segments_intersection_correct_lemma.
-Print Assumptions cap_extents_lemma.
-Print Assumptions straight_segment_region_lemma.
-Print Assumptions interp_endpoints_lemma.
-Print Assumptions serp_monotone_lemma.
-Print Assumptions query_index_lemma.
-Print Assumptions eval_extrapolates_linearly_lemma.
-Print Assumptions segment_extrapolation_is_line_lemma.
-Print Assumptions pderiv_coeff_lemma.
-Print Assumptions gradient_is_derivative_lemma.
+  { rewrite !map_length. clear - Hok. destruct s as [| | |ctrl]; simpl in Hok |- *. 1-3: lia. Show. Set Printing All. Show. lia. 
